@@ -6,6 +6,7 @@ package main
 import (
 	"fmt"
 	"go/types"
+	"sort"
 	"strings"
 
 	"golang.org/x/tools/go/ssa"
@@ -422,6 +423,88 @@ func checkCEntryStates(p *Program, r *Report, fn *ssa.Function, mc *modelCalls, 
 	}
 	if okStates {
 		r.OK(rule, key+": Run receives InitialiseStates() iff initStates, else the caller's states buffer")
+	}
+	// the library initialises as many state rows as the caller's states buffer has cells: the argument of
+	// InitialiseStates derives from the very parameter that is the first extent of the wrapped states buffer
+	{
+		eff := nil2eff(p)
+		paramDeps := func(v ssa.Value) map[*ssa.Parameter]bool {
+			out := map[*ssa.Parameter]bool{}
+			for _, prm := range fn.Params {
+				pp := prm
+				if dependsOn(v, func(x ssa.Value) bool { return x == ssa.Value(pp) }, map[ssa.Value]bool{}) {
+					out[pp] = true
+				}
+			}
+			return out
+		}
+		// first extent of a C-array constructor's shape argument, as a value in the function that calls it
+		var firstExtent func(c *ssa.Call, depth int) ssa.Value
+		firstExtent = func(c *ssa.Call, depth int) ssa.Value {
+			if isCArrayCtor(c) && len(c.Common().Args) >= 2 {
+				vals, _, unk := vecElemAt(eff, origin1(c.Common().Args[1]), 0, c)
+				if unk == "" && len(vals) == 1 {
+					return vals[0]
+				}
+				return nil
+			}
+			f := c.Common().StaticCallee()
+			if depth > 2 || wrapParam(f) < 0 {
+				return nil
+			}
+			for _, ret := range returnsOf(f) {
+				for _, o := range origins(ret.Results[0]) {
+					if ic, ok := stripConv(o).(*ssa.Call); ok {
+						if v := firstExtent(ic, depth+1); v != nil {
+							for i, prm := range f.Params {
+								pp := prm
+								if dependsOn(v, func(x ssa.Value) bool { return x == ssa.Value(pp) }, map[ssa.Value]bool{}) && i < len(c.Common().Args) {
+									return c.Common().Args[i]
+								}
+							}
+						}
+					}
+				}
+			}
+			return nil
+		}
+		var bufCount map[*ssa.Parameter]bool
+		eachInstr(fn, func(_ *ssa.BasicBlock, _ int, ins ssa.Instruction) {
+			if c, ok := ins.(*ssa.Call); ok && fromStatesBuf(c) {
+				if v := firstExtent(c, 0); v != nil {
+					if bufCount == nil {
+						bufCount = map[*ssa.Parameter]bool{}
+					}
+					for prm := range paramDeps(v) {
+						bufCount[prm] = true
+					}
+				}
+			}
+		})
+		for _, ic := range mc.calls["InitialiseStates"] {
+			ckey := key + ":states:init-count"
+			if len(ic.Common().Args) != 1 || bufCount == nil {
+				r.Undecided(rule, ckey, p.Pos(ic.Pos()), "cell count of the caller's states buffer or of InitialiseStates not determined")
+				continue
+			}
+			deps := paramDeps(ic.Common().Args[0])
+			same := len(deps) > 0
+			for prm := range deps {
+				if !bufCount[prm] {
+					same = false
+				}
+			}
+			if same {
+				r.OK(rule, key+": InitialiseStates is given the cell count of the caller's states buffer")
+			} else {
+				var names []string
+				for prm := range deps {
+					names = append(names, prm.Name())
+				}
+				sort.Strings(names)
+				r.Fail(rule, ckey, p.Pos(ic.Pos()), fmt.Sprintf("the library initialises states for a count taken from `%s`, not from the parameter that gives the caller's states buffer its number of cells: Run simulates (and copies back) a different number of cells than the buffers hold", strings.Join(names, ", ")))
+			}
+		}
 	}
 	// copy-back
 	okCopy := false
